@@ -13,7 +13,7 @@ import z3
 
 from pyvc import ops, specfn
 from pyvc.sym import (SInt, SBool, SSeq, ASeq, SPy, Sentinel, Obj, ListObj, DictObj, ExcObj, PyRaise, V,
-                      EngineError, Unsupported, PyVal, SeqI, SeqSeqI, IntS, BoolS, as_int_term, as_bool_term,
+                      EngineError, Unsupported, PyVal, EntryS, SeqI, SeqSeqI, IntS, BoolS, as_int_term, as_bool_term,
                       as_seq_term, mk_int, mk_bool, to_pyval, seq_const, concrete_int)
 from pyvc.modules import ModuleNS, Ext, FuncVal, ClassVal, Wrapped, PropertyVal
 
@@ -258,7 +258,8 @@ class Engine:
 
     @staticmethod
     def sort_of_kind(kind):
-        return {"bytes": SeqI, "tuple": SeqI, "int": IntS, "py": PyVal, "bool": BoolS, "tupleB": SeqSeqI}[kind]
+        return {"bytes": SeqI, "tuple": SeqI, "int": IntS, "py": PyVal, "bool": BoolS, "tupleB": SeqSeqI,
+                "entry": EntryS}[kind]
 
     def assume(self, cond):
         if cond is True:
@@ -959,6 +960,8 @@ class Engine:
             raise Unsupported("raise of %r" % (e,))
         if st.cause is not None:
             e.cause = self.ev(st.cause, fr)
+        # implicit chaining: an exception raised while another one is being handled carries it as __context__
+        e.context = getattr(fr, "handling", None)
         raise PyRaise(e)
 
     def st_FunctionDef(self, st, fr):
@@ -1507,6 +1510,10 @@ class Engine:
             return to_pyval(val)
         if d.vkind == "bool":
             return as_bool_term(val)
+        if d.vkind == "entry":
+            if not (isinstance(val, tuple) and len(val) == 2 and _kind_of(val[1]) == "tuple"):
+                raise Unsupported("dictionary value %r is not a pair (object, nibble tuple)" % (val,))
+            return EntryS.Entry(to_pyval(val[0]), ops.seq_term_as(val[1], "int"))
         raise Unsupported("dict value kind %s" % d.vkind)
 
     def dict_dec(self, d, t):
@@ -1519,6 +1526,8 @@ class Engine:
             return self.from_pyval(t)
         if d.vkind == "bool":
             return mk_bool(t)
+        if d.vkind == "entry":
+            return (self.from_pyval(EntryS.enode(t)), SSeq(z3.simplify(EntryS.eseg(t)), "tuple", "int"))
         raise Unsupported("dict value kind %s" % d.vkind)
 
     def from_pyval(self, t):
